@@ -1,4 +1,5 @@
 import VOPyVerif.Proofs.Empirical
+import VOPyVerif.Proofs.EmpiricalInvariance
 /-!
 # C16 — the empirical model reports per-design running statistics of all samples
 
@@ -268,5 +269,165 @@ stops does not change the final state (hence no later prediction). -/
 theorem rejected_adds_ignored (st : State) (ops : List Op) :
     run st ops = run st (ops.filter (fun o => !o.rejected st.count)) :=
   run_filter_rejected st ops
+
+end VOPy.C16
+
+/-! # INVARIANCE — shifting / scaling the samples
+
+The statement behind the large-offset stream of the harness: the reported statistics are *exactly*
+equivariant — means move with the data, variances see only deviations.  Any loss of accuracy at large
+offsets in an implementation (e.g. a one-pass `E[x²] − E[x]²` formula) is therefore a floating-point
+artefact, not something the specification allows.  `Op.affine a c` replaces every sample row `y` of
+every `add_sample` of a history by `affRow a c y = a·y + c` (`c` holds one constant per objective). -/
+namespace VOPy.C16
+open VOPy VOPy.Empirical
+
+/-- **Affine equivariance after any history.**  Under the hypotheses of `predict_after_history`, for
+any factor `a` and any vector `c` of one constant per objective: after the history in which every
+sample value `y` was replaced by `a·y + c`, `predict` reports for each design `i` of `I`
+* mean: `a·mean + c` of the original held samples if the design holds at least one sample (as of the
+  last update), and the zero vector if it holds none — the zero vector of an unsampled design does
+  *not* move;
+* covariance: `a²` times the original covariance if the design holds at least two samples, and the
+  configured `noise·I` otherwise (the `< 2` samples branch does not see the data at all);
+the untracked defaults (zero vector, identity) as before. -/
+theorem predict_affine_history {m count : Nat} (noise : Rat) (tm0 tv0 : Bool) (hm : 0 < m)
+    (a : Rat) (c : Vec) (hc : c.length = m)
+    (pre post : List Op) (hwf : WF m count pre) (hpost : ∀ o ∈ post, o.isUpdate = false)
+    (I : List Nat) (hI : ∀ i ∈ I, i < count)
+    (hM : (flagsAfter (tm0, tv0) (pre ++ .update :: post)).1 = true → (flagsAfter (tm0, tv0) pre).1 = true)
+    (hV : (flagsAfter (tm0, tv0) (pre ++ .update :: post)).2 = true → (flagsAfter (tm0, tv0) pre).2 = true) :
+    predict (run (init m count noise tm0 tv0) ((pre ++ .update :: post).map (Op.affine a c)))
+        (I.map (fun (i : Nat) => (i : Int))) =
+      .ok (I.map (fun i => if (flagsAfter (tm0, tv0) (pre ++ .update :: post)).1
+                           then (if heldFor count i pre = [] then zeros m
+                                 else affRow a c (meanOf m (heldFor count i pre)))
+                           else zeros m),
+           I.map (fun i => if (flagsAfter (tm0, tv0) (pre ++ .update :: post)).2
+                           then (if 1 < (heldFor count i pre).length
+                                 then (varOf m noise (heldFor count i pre)).map (smul (a * a))
+                                 else diagOf m (fun _ => noise))
+                           else diagOf m (fun _ => 1))) := by
+  subst hc
+  have hmap : (pre ++ Op.update :: post).map (Op.affine a c) =
+      pre.map (Op.affine a c) ++ Op.update :: post.map (Op.affine a c) := by
+    simp [Op.affine]
+  have hfl : ∀ l, flagsAfter (tm0, tv0) (l.map (Op.affine a c)) = flagsAfter (tm0, tv0) l :=
+    fun l => flagsAfter_affine a c l _
+  have hfl2 := hfl (pre ++ Op.update :: post)
+  rw [hmap] at hfl2 ⊢
+  rw [predict_after_history noise tm0 tv0 hm (pre.map (Op.affine a c)) (post.map (Op.affine a c))
+    (WF_affine a c count pre hwf)
+    (by
+      intro o ho
+      obtain ⟨o', ho', rfl⟩ := List.mem_map.mp ho
+      rw [affine_isUpdate]; exact hpost o' ho')
+    I hI (by rw [hfl2, hfl pre]; exact hM) (by rw [hfl2, hfl pre]; exact hV)]
+  rw [hfl2]
+  congr 2
+  · apply List.map_congr_left
+    intro i _
+    rw [heldFor_affine, meanOf_affine a c _ (heldFor_rows i pre hwf)]
+  · apply List.map_congr_left
+    intro i _
+    rw [heldFor_affine, varOf_affine a c noise _ (heldFor_rows i pre hwf)]
+    by_cases h1 : 1 < (heldFor count i pre).length
+    · simp [h1]
+    · simp [h1, varOf]
+
+/-- **Shift invariance** (`a = 1`): adding the constant `c_d` to every sample value of objective `d`
+adds `c` to the reported mean of every sampled design and leaves **every reported covariance exactly
+unchanged** — including the `noise·I` of designs with fewer than two samples. -/
+theorem predict_shift_history {m count : Nat} (noise : Rat) (tm0 tv0 : Bool) (hm : 0 < m)
+    (c : Vec) (hc : c.length = m)
+    (pre post : List Op) (hwf : WF m count pre) (hpost : ∀ o ∈ post, o.isUpdate = false)
+    (I : List Nat) (hI : ∀ i ∈ I, i < count)
+    (hM : (flagsAfter (tm0, tv0) (pre ++ .update :: post)).1 = true → (flagsAfter (tm0, tv0) pre).1 = true)
+    (hV : (flagsAfter (tm0, tv0) (pre ++ .update :: post)).2 = true → (flagsAfter (tm0, tv0) pre).2 = true) :
+    predict (run (init m count noise tm0 tv0) ((pre ++ .update :: post).map (Op.affine 1 c)))
+        (I.map (fun (i : Nat) => (i : Int))) =
+      .ok (I.map (fun i => if (flagsAfter (tm0, tv0) (pre ++ .update :: post)).1
+                           then (if heldFor count i pre = [] then zeros m
+                                 else vadd (meanOf m (heldFor count i pre)) c)
+                           else zeros m),
+           I.map (fun i => if (flagsAfter (tm0, tv0) (pre ++ .update :: post)).2
+                           then varOf m noise (heldFor count i pre) else diagOf m (fun _ => 1))) := by
+  rw [predict_affine_history noise tm0 tv0 hm 1 c hc pre post hwf hpost I hI hM hV]
+  congr 2
+  · apply List.map_congr_left
+    intro i _
+    simp only [affRow_one_shift]
+  · apply List.map_congr_left
+    intro i _
+    have e : (smul 1 : Vec → Vec) = id := by funext v; simp [smul]
+    by_cases h1 : 1 < (heldFor count i pre).length
+    · simp [h1, e]
+    · simp [h1, varOf]
+
+/-- **Scaling** (`c = 0`): multiplying every sample value by `a` multiplies every reported mean by `a`
+and every data-dependent covariance by `a²` (designs with fewer than two samples keep `noise·I`). -/
+theorem predict_scale_history {m count : Nat} (noise : Rat) (tm0 tv0 : Bool) (hm : 0 < m)
+    (a : Rat)
+    (pre post : List Op) (hwf : WF m count pre) (hpost : ∀ o ∈ post, o.isUpdate = false)
+    (I : List Nat) (hI : ∀ i ∈ I, i < count)
+    (hM : (flagsAfter (tm0, tv0) (pre ++ .update :: post)).1 = true → (flagsAfter (tm0, tv0) pre).1 = true)
+    (hV : (flagsAfter (tm0, tv0) (pre ++ .update :: post)).2 = true → (flagsAfter (tm0, tv0) pre).2 = true) :
+    predict (run (init m count noise tm0 tv0) ((pre ++ .update :: post).map (Op.affine a (zeros m))))
+        (I.map (fun (i : Nat) => (i : Int))) =
+      .ok (I.map (fun i => if (flagsAfter (tm0, tv0) (pre ++ .update :: post)).1
+                           then smul a (meanOf m (heldFor count i pre)) else zeros m),
+           I.map (fun i => if (flagsAfter (tm0, tv0) (pre ++ .update :: post)).2
+                           then (if 1 < (heldFor count i pre).length
+                                 then (varOf m noise (heldFor count i pre)).map (smul (a * a))
+                                 else diagOf m (fun _ => noise))
+                           else diagOf m (fun _ => 1))) := by
+  rw [predict_affine_history noise tm0 tv0 hm a (zeros m) (by simp [zeros]) pre post hwf hpost I hI hM hV]
+  congr 2
+  apply List.map_congr_left
+  intro i _
+  have hlen : (meanOf m (heldFor count i pre)).length = m := by
+    simp only [meanOf]; split <;> simp [zeros]
+  by_cases h0 : heldFor count i pre = []
+  · simp [h0, meanOf, zeros, smul]
+  · simp only [h0, if_false, affRow_scale a m _ hlen]
+
+/-- the per-design statements the three theorems rest on: for samples that are `m`-vectors,
+`mean(a·y + c) = a·mean(y) + c` (none: zero vector) and `Var(a·y + c) = a²·Var(y)` (fewer than two:
+`noise·I`) — `c` has one entry per objective. -/
+theorem stats_affine (a : Rat) (c : Vec) (noise : Rat) (S : List Vec) (hS : ∀ y ∈ S, y.length = c.length) :
+    meanOf c.length (S.map (affRow a c)) =
+      (if S = [] then zeros c.length else affRow a c (meanOf c.length S)) ∧
+    varOf c.length noise (S.map (affRow a c)) =
+      (if 1 < S.length then (varOf c.length noise S).map (smul (a * a)) else varOf c.length noise S) :=
+  ⟨meanOf_affine a c S hS, varOf_affine a c noise S hS⟩
+
+/-! ### non-vacuity: offset `2^20`, spread `2^-10` -/
+
+/-- design 0 receives `2^20 + k·2^-10` (k = 1, 3) in objective 0 and `−2^20 ± 2^-10` in objective 1;
+design 1 a single sample; design 2 none.  The variances `(2^-10)²` are reported exactly, the single
+sample gives `noise·I`, the unsampled design the zero vector. -/
+example :
+    predict (run (init 2 3 (1/4) true true)
+      [.add [0, 0, 1] [[1048576 + 1/1024, -1048576 - 1/1024], [1048576 + 3/1024, -1048576 + 1/1024],
+                       [1048576, -1048576]], .update]) [0, 1, 2]
+      = .ok ([[1048576 + 2/1024, -1048576], [1048576, -1048576], [0, 0]],
+             [[[1/1048576, 0], [0, 1/1048576]], [[1/4, 0], [0, 1/4]], [[1/4, 0], [0, 1/4]]]) := by
+  decide +kernel
+
+/-- the same result through the shift by `c = (2^20, −2^20)` of a history with values of size `2^-10`
+(evaluated), and the hypotheses of `predict_shift_history` hold for it -/
+example :
+    predict (run (init 2 3 (1/4) true true)
+      (([.add [0, 0, 1] [[1/1024, -1/1024], [3/1024, 1/1024], [0, 0]], .update] : List Op).map
+        (Op.affine 1 [1048576, -1048576]))) [0, 1, 2]
+      = .ok ([[1048576 + 2/1024, -1048576], [1048576, -1048576], [0, 0]],
+             [[[1/1048576, 0], [0, 1/1048576]], [[1/4, 0], [0, 1/4]], [[1/4, 0], [0, 1/4]]]) ∧
+    WF 2 3 [.add [0, 0, 1] [[1/1024, -1/1024], [3/1024, 1/1024], [0, 0]]] := by
+  constructor
+  · decide +kernel
+  · intro o ho
+    simp only [List.mem_singleton] at ho
+    subst ho
+    exact Or.inl (by decide +kernel)
 
 end VOPy.C16
